@@ -60,6 +60,12 @@ type Grammar struct {
 	NSw    int    // number of predicate switches used
 	NAct   int
 	HasCap bool
+
+	// long-input layer (Long()): the concrete filler cycle, the largest length the grammar is
+	// run at (0: none) and whether the number of tokens is independent of the input length
+	Filler  string
+	LongMax int
+	Flat    bool
 }
 
 var ruleNames = []string{"S", "A", "B", "D", "F", "G", "H", "J"}
